@@ -512,3 +512,17 @@ Lemma regularity_examples :
   is_regular (fact (TBin AMul (n 1%Z) (n 2%Z))) = NOk true /\
   is_regular (fact a) = NOk true.
 Proof. cbv zeta. rewrite !is_regular_by_ruleb. repeat split. Qed.
+
+(* "If every rule in the program is regular, the outputs of mu and nu are identical" (manual) *)
+Theorem mu_on_regular_program
+  (choose_fresh_global_variables : program -> list string)
+  (tau_star_rule : rule -> list string -> formula) (P : program) (th : theory) :
+  natural P = NOk th -> mu choose_fresh_global_variables tau_star_rule P = NOk th.
+Proof.
+  unfold mu. rewrite mu_rules_map. generalize (choose_fresh_global_variables P) as g. intros g.
+  revert th. induction P as [|r P IH]; intros th E.
+  - cbn in E. inversion E. reflexivity.
+  - apply natural_cons in E. destruct E as [f [fs [Er [Ers ->]]]].
+    cbn [map]. unfold mu_formula at 1. rewrite Er. specialize (IH fs Ers). inversion IH as [IH'].
+    rewrite IH'. reflexivity.
+Qed.
